@@ -11,10 +11,10 @@ def build(tier, seed):
         mm = member_module("C20", name)
         for sl, pre in load_slices(name, allow_bug=False).items():
             mm.ob(f"model_{sl}_{name}", LOAD_PARAMS, f"return c20_model(MEMBER, MODEL, TREE, LOADERS, lambda: build_data(MEMBER, TREE, {LOAD_ARGS}))",
-                  pre=pre, timeout=120 if tier == "quick" else 900, family="generated model loaders (stub fields) x name_mapping recipes",
+                  pre=pre, timeout=120 if tier == "quick" else 300, family="generated model loaders (stub fields) x name_mapping recipes",
                   bounds="slice " + sl + ": presence bits, symbolic stub codes, unknown keys, wrong node/root kinds, list truncation; 6 modes")
         if MEMBERS[name]["model"] != "MK":
             mm.ob(f"model_dump_{name}", "v0: int, v1: int, v2: int, e: int", "return c20_dump(MEMBER, MODEL, TREE, DUMPERS, lambda: mk_obj(v0, v1, v2, e))",
-                  pre=["-1 <= e <= 1"], timeout=120 if tier == "quick" else 900, family="generated model dumpers: purity and freshness", bounds="symbolic payloads; two calls; 3 debug modes")
+                  pre=["-1 <= e <= 1"], timeout=120 if tier == "quick" else 300, family="generated model dumpers: purity and freshness", bounds="symbolic payloads; two calls; 3 debug modes")
         mods.append(mm)
     return Plan("C20", mods, assumptions=["CrossHair models of builtins"], bounds={}, outside=[])
